@@ -29,11 +29,11 @@ ENV = {'XLA_FLAGS': '--xla_force_host_platform_device_count=8'}
 MIN_HITS = {
     'quick': {'mon:fold': 400, 'mon:ids': 200, 'mon:steps': 200, 'mon:sanitize': 200, 'backend:jit': 40, 'backend:debug': 40,
               'backend:pmap': 100, 'pmap-padding-client': 30, 'pmap-padding-batch': 30, 'nan-on-padding-program': 20,
-              'mon:thread': 5000, 'thread-alternations': 50, 'zero-batches-client': 20, 'mon:restore': 500},
+              'mon:thread': 5000, 'thread-alternations': 50, 'zero-batches-client': 20, 'mon:restore': 500, 'client-id-None': 5},
     'thorough': {'mon:fold': 8000, 'mon:ids': 4000, 'mon:steps': 4000, 'mon:sanitize': 4000, 'backend:jit': 400,
                  'backend:debug': 400, 'backend:pmap': 3000, 'pmap-padding-client': 800, 'pmap-padding-batch': 800,
                  'nan-on-padding-program': 200, 'mon:thread': 100000, 'thread-alternations': 500, 'zero-batches-client': 300,
-                 'mon:restore': 10000},
+                 'mon:restore': 10000, 'client-id-None': 100},
 }
 TECHNIQUE = 'runtime monitoring: eager sequential-fold oracle vs jit/debug/pmap(1..8 devices) + donation sanitizer; shadow-stack monitor over multi-threaded backend-selection schedules'
 LEVEL_TEXT = ('Each generated client program is executed by all three real backends (pmap on every device count 1..8 in thorough) and '
@@ -67,6 +67,8 @@ def build_fns(p, jnp):
         'flag': jnp.zeros((), jnp.bool_),
         # passthrough: the state aliases a shared-input leaf (as FedAvg's 'params': server_params does)
         'nest': (cin['b'] + shared['t'][0], shared['t'] if p['passthrough'] else shared['t'] * 1.0),
+        # same shape/dtype as a batch leaf: if a backend ever donated the caller's batch, XLA could reuse its buffer here
+        'lastx': jnp.zeros((B, 3), jnp.float32),
     }
 
   def step_core(state, batch):
@@ -82,8 +84,9 @@ def build_fns(p, jnp):
       n1 = n1 * (1.0 + p['c'] * jnp.mean(x, axis=0)[:2])
     cnt = state['cnt'] + jnp.sum(batch['k'])
     flag = jnp.logical_or(state['flag'], jnp.any(batch['k'] > p['thr']))
-    new = {'v': v, 'cnt': cnt, 'flag': flag, 'nest': (n0, n1)}
-    res = {'s': s, 'inv': 1.0 / s if p['nan_on_pad'] else s * 2.0, 'c': cnt, 'f': flag}
+    new = {'v': v, 'cnt': cnt, 'flag': flag, 'nest': (n0, n1), 'lastx': x * 0.5}
+    res = {'s': s, 'inv': 1.0 / s if p['nan_on_pad'] else s * 2.0, 'c': cnt, 'f': flag,
+           'xs': x * 2.0, 'ks': batch['k'] + 1}   # per-example results shaped like the batch leaves
     return new, res
 
   if p['with_step_result']:
@@ -97,7 +100,8 @@ def build_fns(p, jnp):
     if p['final_kind'] == 0:
       return state
     if p['final_kind'] == 1:
-      return {'out': state['v'] * shared['t'][0] + state['nest'][0], 'cnt': state['cnt'], 'flag': state['flag']}
+      return {'out': state['v'] * shared['t'][0] + state['nest'][0], 'cnt': state['cnt'], 'flag': state['flag'],
+              'lastx': state['lastx']}
     return (state['nest'][1] + shared['s'][:2], [state['cnt'] * 2, state['flag']])
 
   return client_init, client_step, client_final
@@ -116,6 +120,15 @@ def make_collection(rng, forced=None):
     } for _ in range(nb)]
     cin = {'a': np.float32(rng.uniform(0.5, 2)), 'b': np.float32(rng.randn()), 'start': np.int32(rng.randint(0, 5))}
     clients.append((b'id%02d' % i, batches, cin))
+  # "any hashable type can be used as a client id": bytes, str, int, tuple and -- for one client -- None
+  style = rng.randint(4)
+  if style == 1:
+    clients = [((c.decode(), i) if i % 2 else i, b_, ci) for i, (c, b_, ci) in enumerate(clients)]
+  elif style == 2 and n:
+    j = int(rng.randint(n))
+    clients[j] = (None, clients[j][1], clients[j][2])
+  elif style == 3:
+    clients = [(c.decode(), b_, ci) for c, b_, ci in clients]
   order = rng.permutation(n)
   clients = [clients[i] for i in order]
   shared = {'s': rng.uniform(0.5, 1.5, size=(3,)).astype(np.float32), 't': rng.uniform(0.5, 1.5, size=(2,)).astype(np.float32)}
@@ -154,6 +167,8 @@ def run_program(ctx, jax, jnp, fedjax, fec, rng, nds):
     ctx.count('nan-on-padding-program')
   if any(len(b) == 0 for _, b, _ in clients_np):
     ctx.count('zero-batches-client')
+  if any(c is None for c, _, _ in clients_np):
+    ctx.count('client-id-None')
 
   # ----- oracle: the definition, evaluated eagerly
   expected = {}
